@@ -32,8 +32,16 @@ class Derive(Stream):
     model_out = "c05_expected"
     shard = 7
 
+    _n = 0
+
     def go_case(self, c):
-        return {k: v for k, v in c.items() if k != "kind"}
+        # every other derivation goes through the emulator's own stgutg.CreateUE (when the SUPI is imsi-<digits>)
+        d = {k: v for k, v in c.items() if k != "kind"}
+        Derive._n += 1
+        import re
+        if Derive._n % 2 == 1 and re.fullmatch(r"imsi-[0-9]{5,15}", str(c.get("supi", ""))):
+            d["via"] = "createue"
+        return d
 
     def classify(self, c, o):
         return c["kind"]
